@@ -1480,3 +1480,601 @@ Proof.
   pose proof (sensitize_model_spec solve C n _ _ T r Hsound Hcomp HT Hsp Hr) as H.
   destruct r as [μ|]; [|done]. by destruct H as [_ H].
 Qed.
+
+
+(* ================================================================================================ *)
+(* E. the model's sensitivity circuit: exact node set, all records, certificate                        *)
+Lemma otie_loop_dom S : ∀ g g', add_each otie1 g S = (g', Done) → dom g' = dom g ∪ list_to_set S.
+Proof.
+  induction S as [|s S IH]; intros g g' H.
+  - apply my_add_each_nil in H as ->. set_solver.
+  - apply my_add_each_cons in H as (g1 & n1 & Hstep & Hrest). unfold otie1 in Hstep.
+    assert (Hnfo : s ∉ [pre "orig" s]) by (intros E%elem_of_list_singleton; symmetry in E; by apply pre_ne in E).
+    rewrite (IH _ _ Hrest), (add_g_dom _ _ _ _ _ af_default _ _ eq_refl eq_refl eq_refl Hstep Hnfo). set_solver.
+Qed.
+Lemma otie_loop_inputs S : ∀ g g', add_each otie1 g S = (g', Done) →
+  (∀ s, s ∈ S → pre "orig" s ∈ dom g) → ∀ s, s ∈ S → g' !! s = Some (mk_node Input false ∅).
+Proof.
+  induction S as [|s S IH]; intros g g' H Hd; [by intros s ?%elem_of_nil|].
+  apply my_add_each_cons in H as (g1 & n1 & Hstep & Hrest). unfold otie1 in Hstep.
+  assert (Hnfo : s ∉ [pre "orig" s]) by (intros E%elem_of_list_singleton; symmetry in E; by apply pre_ne in E).
+  destruct (add_g_lookup _ _ _ _ _ af_default _ _ eq_refl eq_refl eq_refl Hstep Hnfo) as (_ & Hs & Hls & _).
+  pose proof (add_g_eff _ _ _ _ _ af_default _ _ eq_refl eq_refl eq_refl Hstep Hnfo) as [Hd1 _].
+  assert (Hd' : ∀ s', s' ∈ S → pre "orig" s' ∈ dom g1) by (intros s' Hs'; apply Hd1, Hd; by right).
+  intros s' [->|Hs']%elem_of_cons; [|by apply (IH g1 g' Hrest Hd')].
+  destruct (otie_loop_lookup _ _ _ Hrest) as (_ & _ & Hlk).
+  rewrite Hlk by (apply elem_of_dom; rewrite Hls; eauto). rewrite Hls. simpl. f_equal.
+  assert (list_to_set (filter (λ s0, s = pre "orig" s0) S) = (∅ : gset string)) as ->;
+    [|unfold mk_node, upd_fi; simpl; f_equal; set_solver].
+  apply set_eq. intros y. rewrite elem_of_list_to_set, elem_of_list_filter. split; [|set_solver].
+  intros [E Hy]. exfalso. apply Hs. rewrite E. apply Hd. by right.
+Qed.
+
+Lemma inner_loop_dom s0 l g g' : NoDup l → foldl (inner_step s0) (g, Done) l = (g', Done) → dom g' = dom g.
+Proof.
+  intros Hnd H. destruct (inner_loop s0 l g g' Hnd H) as [I1 I2]. apply set_eq. intros k. rewrite !elem_of_dom.
+  destruct (decide (k ∈ (pre (pre "inv" s0) <$> l))) as [(s1 & -> & Hs1)%elem_of_list_fmap|Hno].
+  - rewrite (I1 s1 Hs1). destruct (g !! _); simpl; split; intros [? ?]; eauto; done.
+  - rewrite I2; [done|]. intros s1 Hs1 ->. apply Hno. apply elem_of_list_fmap. eauto.
+Qed.
+
+Lemma inv_copy_dom Sc SUB n ord i s0 S2 : inv_copy Sc SUB n ord i s0 = (S2, Done) → NoDup ord →
+  dom (c_g S2) = dom (c_g Sc) ∪ set_map (pre (pre "inv" s0)) (dom (c_g SUB)) ∪ {[pre "dif_out" s0]} ∧
+  (∀ x, x ∈ dom (c_g SUB) → pre (pre "inv" s0) x ∉ dom (c_g Sc)) ∧ pre "dif_out" s0 ∉ dom (c_g Sc).
+Proof.
+  intros H Hnd. destruct (inv_copy_inv _ _ _ _ _ _ _ H) as (S' & g & g' & n' & H1 & H2 & H3 & ->).
+  change (c_g (with_g S' g')) with g'.
+  destruct (add_sub_nil _ _ _ _ H1) as (HgS' & _ & _ & Hfresh).
+  assert (Hnfo : pre "dif_out" s0 ∉ [pcin i]) by (intros E%elem_of_list_singleton; unfold pre, pcin in E; simplify_eq/=).
+  destruct (add_g_lookup _ _ _ _ _ af_out1 _ _ eq_refl eq_refl eq_refl H3 Hnfo) as (_ & Hdfresh & _).
+  pose proof (inner_loop_dom _ _ _ _ Hnd H2) as Hdi.
+  rewrite (add_g_dom _ _ _ _ _ af_out1 _ _ eq_refl eq_refl eq_refl H3 Hnfo), Hdi, HgS', dom_spliced.
+  split; [clear; set_solver|]. split; [done|].
+  intros Hin. apply Hdfresh. rewrite Hdi, HgS', dom_spliced. clear -Hin. set_solver.
+Qed.
+
+Lemma outer_loop_dom SUB n ord l : NoDup ord →
+  ∀ Sc S', foldl (outer_step SUB n ord) (Sc, Done) l = (S', Done) →
+  (∀ k, k ∈ dom (c_g S') ↔ k ∈ dom (c_g Sc) ∨
+        ∃ i s0, (i, s0) ∈ l ∧ ((∃ x, x ∈ dom (c_g SUB) ∧ k = pre (pre "inv" s0) x) ∨ k = pre "dif_out" s0)) ∧
+  (∀ i s0, (i, s0) ∈ l → (∀ x, x ∈ dom (c_g SUB) → pre (pre "inv" s0) x ∉ dom (c_g Sc)) ∧ pre "dif_out" s0 ∉ dom (c_g Sc)).
+Proof.
+  intros Hnd. induction l as [|[i s0] l IH]; intros Sc S' H.
+  - simpl in H. injection H as <-. split; [|by intros i s0 ?%elem_of_nil]. intros k. split; [by left|].
+    intros [?|(i & s0 & ?%elem_of_nil & _)]; done.
+  - simpl in H. destruct (inv_copy Sc SUB n ord i s0) as [S1 [|e]] eqn:H1; [|by rewrite outer_fail in H].
+    destruct (inv_copy_dom _ _ _ _ _ _ _ H1 Hnd) as (D1 & Fi & Fd). destruct (IH S1 S' H) as [D2 F2]. split.
+    + intros k. rewrite (D2 k), D1. rewrite !elem_of_union, elem_of_singleton, elem_of_map. split.
+      * intros [[[?|(x & -> & Hx)]| ->]|(i' & s0' & Hin & Hk)]; [by left| | |].
+        -- right. exists i, s0. split; [by left|]. left. eauto.
+        -- right. exists i, s0. split; [by left|]. by right.
+        -- right. exists i', s0'. split; [by right|done].
+      * intros [?|(i' & s0' & [[= -> ->]|Hin]%elem_of_cons & Hk)]; [by do 3 left| |].
+        -- left. destruct Hk as [(x & Hx & ->)| ->]; [left; right; eauto|by right].
+        -- right. eauto.
+    + intros i' s0' [[= -> ->]|Hin]%elem_of_cons; [done|].
+      destruct (F2 i' s0' Hin) as [Fa Fb]. assert (dom (c_g Sc) ⊆ dom (c_g S1)) as Hsub by (rewrite D1; clear; set_solver).
+      split; [intros x Hx Hk; by apply (Fa x Hx), Hsub|intros Hk; by apply Fb, Hsub].
+Qed.
+
+(* the names of the inverted copies are unambiguous in an accepted run (inv_<s0>_<x> is not injective in general) *)
+Lemma inv_unique SUB n ord l : NoDup ord → NoDup (snd <$> l) →
+  ∀ Sc S', foldl (outer_step SUB n ord) (Sc, Done) l = (S', Done) →
+  ∀ i s0 i' s0' x y, (i, s0) ∈ l → (i', s0') ∈ l → x ∈ dom (c_g SUB) → y ∈ dom (c_g SUB) →
+    pre (pre "inv" s0) x = pre (pre "inv" s0') y → s0 = s0' ∧ x = y.
+Proof.
+  intros Hnd. induction l as [|[i0 t0] l IH]; intros Hndl Sc S' H i s0 i' s0' x y Hin Hin' Hx Hy E; [by apply elem_of_nil in Hin|].
+  simpl in H. destruct (inv_copy Sc SUB n ord i0 t0) as [S1 [|e]] eqn:H1; [|by rewrite outer_fail in H].
+  rewrite fmap_cons in Hndl. apply NoDup_cons in Hndl as [Ht0 Hndl]. simpl in Ht0.
+  destruct (inv_copy_dom _ _ _ _ _ _ _ H1 Hnd) as (D1 & _ & _).
+  destruct (outer_loop_dom SUB n ord l Hnd S1 S' H) as [_ F2].
+  assert (Hhead : ∀ z, z ∈ dom (c_g SUB) → pre (pre "inv" t0) z ∈ dom (c_g S1)).
+  { intros z Hz. rewrite D1. apply elem_of_union_l, elem_of_union_r, elem_of_map. eauto. }
+  apply elem_of_cons in Hin as [[= -> ->]|Hin]; apply elem_of_cons in Hin' as [[= -> ->]|Hin'].
+  - split; [done|]. by apply (inj (pre (pre "inv" t0))) in E.
+  - exfalso. destruct (F2 i' s0' Hin') as [Fa _]. apply (Fa y Hy). rewrite <- E. by apply Hhead.
+  - exfalso. destruct (F2 i s0 Hin) as [Fa _]. apply (Fa x Hx). rewrite E. by apply Hhead.
+  - by eapply (IH Hndl S1 S' H i s0 i' s0' x y).
+Qed.
+
+Lemma sen_loop_dom l : ∀ g g', add_each sen1 g l = (g', Done) →
+  dom g' = dom g ∪ list_to_set ((λ o, "sen_out_" ++ pretty o) <$> l) ∧
+  (∀ o, o ∈ l → "sen_out_" ++ pretty o ∉ dom g ∧ "pc_out_" ++ pretty o ∈ dom g).
+Proof.
+  induction l as [|o l IH]; intros g g' H.
+  - apply my_add_each_nil in H as ->. split; [set_solver|]. by intros o ?%elem_of_nil.
+  - apply my_add_each_cons in H as (g1 & n1 & Hstep & Hrest). unfold sen1 in Hstep.
+    assert (Hnfo : "sen_out_" ++ pretty o ∉ ([] : list string)) by (by intros ?%elem_of_nil).
+    destruct (add_g_lookup _ _ _ _ _ af_out1 _ _ eq_refl eq_refl eq_refl Hstep Hnfo) as (_ & Hfr & _ & _ & _ & Hfi).
+    pose proof (add_g_dom _ _ _ _ _ af_out1 _ _ eq_refl eq_refl eq_refl Hstep Hnfo) as D1.
+    destruct (IH g1 g' Hrest) as [D2 F2]. split.
+    + rewrite D2, D1, fmap_cons, list_to_set_cons. clear; set_solver.
+    + intros o' [->|Ho']%elem_of_cons.
+      * split; [done|]. destruct (Hfi ("pc_out_" ++ pretty o) ltac:(by left)) as [?|E]; [done|]. simplify_eq/=.
+      * destruct (F2 o' Ho') as [Fa Fb]. rewrite D1 in Fa, Fb. split; [set_solver|].
+        apply elem_of_union in Fb as [E%elem_of_singleton|?]; [simplify_eq/=|done].
+Qed.
+
+
+Definition orec (ord : list string) (x : string) (i : ninfo) : ninfo :=
+  upd_fi (λ F, (if decide (x ∈ ord) then {[x]} else ∅) ∪ F) (ren_info (pre "orig") (strip_info i)).
+Definition pin (i : nat) : string := "in_" ++ pretty i.
+
+Record sv_lookups (c : circuit) (n : string) (ord : list string) (P : circuit) (W : nat) (g : circuit) : Prop := {
+  vl_dom : ∀ k, k ∈ dom g →
+     k ∈ ord ∨ (∃ x, x ∈ dom c ∧ k = pre "orig" x) ∨ (∃ x, x ∈ dom P ∧ k = pre "pc" x) ∨
+     (∃ s0 x, s0 ∈ ord ∧ x ∈ dom c ∧ k = pre (pre "inv" s0) x) ∨ (∃ s0, s0 ∈ ord ∧ k = pre "dif_out" s0) ∨
+     (∃ o, o < W ∧ k = "sen_out_" ++ pretty o);
+  vl_in : ∀ s, s ∈ ord → g !! s = Some (mk_node Input false ∅);
+  vl_orig : ∀ x i, c !! x = Some i → g !! pre "orig" x = Some (orec ord x i);
+  vl_inv : ∀ s0 x i, s0 ∈ ord → c !! x = Some i → g !! pre (pre "inv" s0) x = Some (inv_rec s0 ord x i);
+  vl_dif : ∀ s0, s0 ∈ ord → g !! pre "dif_out" s0 = Some (mk_node Xor true {[pre "orig" n; pre (pre "inv" s0) n]});
+  vl_pcin : ∀ i s0 j, ord !! i = Some s0 → P !! pin i = Some j →
+     g !! pre "pc" (pin i) = Some (upd_fi (λ F, {[pre "dif_out" s0]} ∪ F) (ren_info (pre "pc") (strip_info j)));
+  vl_pc : ∀ x j, P !! x = Some j → (∀ i, i < length ord → x ≠ pin i) → g !! pre "pc" x = Some (ren_info (pre "pc") (strip_info j));
+  vl_sen : ∀ o, o < W → g !! ("sen_out_" ++ pretty o) = Some (mk_node Buf true {[ "pc_out_" ++ pretty o ]}) ∧
+                        "pc_out_" ++ pretty o ∈ dom g;
+  vl_fresh : ∀ s, s ∈ ord →
+     (∀ x, x ∈ dom c → s ≠ pre "orig" x) ∧ (∀ x, x ∈ dom P → s ≠ pre "pc" x) ∧
+     (∀ s0 x, s0 ∈ ord → x ∈ dom c → s ≠ pre (pre "inv" s0) x) ∧ (∀ s0, s0 ∈ ord → s ≠ pre "dif_out" s0) ∧
+     (∀ o, o < W → s ≠ "sen_out_" ++ pretty o);
+  vl_uniq : ∀ s0 s0' x y, s0 ∈ ord → s0' ∈ ord → x ∈ dom c → y ∈ dom c →
+     pre (pre "inv" s0) x = pre (pre "inv" s0') y → s0 = s0' ∧ x = y }.
+
+Lemma snd_imap_pairs (l : list string) : snd <$> imap (λ i s, (i, s)) l = l.
+Proof.
+  assert (∀ k, snd <$> imap (λ i s, (k + i, s)) l = l) as H.
+  { induction l as [|s l IH]; intros k; [done|]. rewrite imap_cons. cbn [fmap list_fmap]. f_equal.
+    rewrite <- (IH (S k)) at 2. f_equal. apply imap_ext. intros i x _. simpl. f_equal. lia. }
+  apply (H 0).
+Qed.
+
+Theorem sv_model_lookups SUB n ord PC S1 g2 S3 S4 W g5 :
+  comb (c_g SUB) → NoDup ord → inputs (c_g SUB) = list_to_set ord → pc_inputs (c_g PC) (length ord) →
+  add_subcircuit {| c_name := "circuit"; c_g := ∅; c_bbs := ∅ |} SUB "orig" [] = (S1, Done) →
+  add_each otie1 (c_g S1) ord = (g2, Done) →
+  add_subcircuit (with_g S1 g2) PC "pc" [] = (S3, Done) →
+  foldl (outer_step SUB n ord) (S3, Done) (imap (λ i s, (i, s)) ord) = (S4, Done) →
+  add_each sen1 (c_g S4) (seq 0 W) = (g5, Done) →
+  sv_lookups (c_g SUB) n ord (c_g PC) W g5.
+Proof.
+  intros Hc Hnd Hin Hpc H1 H2 H3 H4 H5. set (c := c_g SUB) in *. set (P := c_g PC) in *.
+  assert (Hord : ∀ s, s ∈ ord ↔ s ∈ inputs c) by (intros s; rewrite Hin; by rewrite elem_of_list_to_set).
+  assert (Hordd : ∀ s, s ∈ ord → s ∈ dom c).
+  { intros s (j & Hj & _)%Hord%elem_of_inputs. apply elem_of_dom. eauto. }
+  (* orig copy and its ties *)
+  assert (O1 : ∀ x j, c !! x = Some j → c_g S1 !! pre "orig" x = Some (ren_info (pre "orig") (strip_info j))).
+  { intros x j Hx. by apply (add_sub_lookup_new _ _ _ _ x j H1). }
+  assert (D1 : dom (c_g S1) = set_map (pre "orig") (dom c)).
+  { destruct (add_sub_nil _ _ _ _ H1) as (G1 & _). rewrite G1, dom_spliced. simpl. rewrite dom_empty_L. fold c. clear; set_solver. }
+  destruct (otie_loop_lookup _ _ _ H2) as (Hfr2 & Hd12 & Ht).
+  pose proof (otie_loop_dom _ _ _ H2) as D2.
+  assert (O2 : ∀ x j, c !! x = Some j → g2 !! pre "orig" x = Some (orec ord x j)).
+  { intros x j Hx. rewrite Ht by (apply elem_of_dom; rewrite (O1 x j Hx); eauto). by rewrite (O1 x j Hx), otie_src. }
+  assert (I2 : ∀ s, s ∈ ord → g2 !! s = Some (mk_node Input false ∅)).
+  { apply (otie_loop_inputs _ _ _ H2). intros s (j & Hj & _)%Hord%elem_of_inputs. apply elem_of_dom. rewrite (O1 s j Hj). eauto. }
+  (* popcount copy *)
+  pose proof (add_sub_eff _ _ _ _ H3) as E23. change (c_g (with_g S1 g2)) with g2 in E23.
+  destruct (add_sub_nil _ _ _ _ H3) as (G3 & _ & _ & Hfr3). change (c_g (with_g S1 g2)) with g2 in G3, Hfr3.
+  assert (D3 : dom (c_g S3) = dom g2 ∪ set_map (pre "pc") (dom P)) by (rewrite G3; exact (dom_spliced (with_g S1 g2) PC "pc")).
+  assert (P3 : ∀ x j, P !! x = Some j → c_g S3 !! pre "pc" x = Some (ren_info (pre "pc") (strip_info j))).
+  { intros x j Hx. by apply (add_sub_lookup_new _ _ _ _ x j H3). }
+  (* the inverted copies *)
+  assert (Hl : ∀ i s0, (i, s0) ∈ imap (λ i s, (i, s)) ord ↔ ord !! i = Some s0).
+  { intros i s0. rewrite elem_of_lookup_imap. split; [intros (i' & s' & [= -> ->] & H); done|intros H; eauto]. }
+  assert (Hpin : ∀ i, i < length ord → ∃ j, P !! pin i = Some j ∧ n_ty j = Input ∧ n_fi j = ∅ ∧
+                    c_g S3 !! pcin i = Some (ren_info (pre "pc") (strip_info j))).
+  { intros i Hi. destruct (Hpc i Hi) as (j & Hj & Hty & Hfi). exists j. repeat split; try done. exact (P3 _ j Hj). }
+  destruct (outer_loop SUB n ord _ Hnd Hordd S3 S4 H4) as [E34 F4].
+  { rewrite fst_imap_pairs. apply NoDup_seq. }
+  { intros [i s0] Hp%Hl. simpl. apply lookup_lt_Some in Hp. destruct (Hpin i Hp) as (j & _ & _ & _ & Hj). apply elem_of_dom. eauto. }
+  destruct (outer_loop_dom SUB n ord _ Hnd S3 S4 H4) as [D4 Fr4].
+  set (A := (list_to_set ((λ p : nat * string, pcin p.1) <$> imap (λ i s, (i, s)) ord) : gset string)) in *.
+  assert (HA : ∀ k, k ∈ A → ∃ i, i < length ord ∧ k = pcin i).
+  { intros k ([i s0] & -> & Hp%Hl)%elem_of_list_to_set%elem_of_list_fmap. exists i. split; [by apply lookup_lt_Some in Hp|done]. }
+  destruct (sen_loop _ _ _ H5) as [E45 F5].
+  destruct (sen_loop_dom _ _ _ H5) as [D5 Fr5].
+  assert (E25 : eff g2 g5 A).
+  { eapply eff_weaken; [|eapply eff_trans; [exact E23|eapply eff_trans; [exact E34|exact E45]]]. clear; set_solver. }
+  assert (E35 : eff (c_g S3) g5 A).
+  { eapply eff_weaken; [|eapply eff_trans; [exact E34|exact E45]]. clear; set_solver. }
+  assert (Hs2 : ∀ s, s ∈ ord → s ∈ dom g2) by (intros s Hs; rewrite D2; apply elem_of_union_r; by apply elem_of_list_to_set).
+  assert (Hs3 : ∀ s, s ∈ ord → s ∈ dom (c_g S3)) by (intros s Hs; rewrite D3; apply elem_of_union_l; by apply Hs2).
+  assert (Hs4 : ∀ s, s ∈ ord → s ∈ dom (c_g S4)) by (intros s Hs; apply D4; left; by apply Hs3).
+  assert (HnotA : ∀ s, s ∈ ord → s ∉ A).
+  { intros s Hs (i & Hi & ->)%HA. destruct (Hpc i Hi) as (j & Hj & _).
+    apply (Hfr3 (pin i)); [apply elem_of_dom; eauto|]. by apply Hs2. }
+  split.
+  - (* node set *)
+    intros k Hk. rewrite D5 in Hk. apply elem_of_union in Hk as [Hk|Hk].
+    + apply D4 in Hk as [Hk|(i & s0 & Hin' & Hk)].
+      * rewrite D3, D2, D1 in Hk. apply elem_of_union in Hk as [[Hk|Hk]%elem_of_union|Hk].
+        -- apply elem_of_map in Hk as (x & -> & Hx). right; left. eauto.
+        -- left. by apply elem_of_list_to_set in Hk.
+        -- apply elem_of_map in Hk as (x & -> & Hx). right; right; left. eauto.
+      * apply Hl in Hin'. assert (s0 ∈ ord) by (by eapply elem_of_list_lookup_2).
+        destruct Hk as [(x & Hx & ->)| ->]; [right; right; right; left; eauto|right; right; right; right; left; eauto].
+    + apply elem_of_list_to_set, elem_of_list_fmap in Hk as (o & -> & Ho%elem_of_seq). do 5 right. exists o. split; [lia|done].
+  - intros s Hs. eapply eff_lookup; [exact E25|by apply I2|by apply HnotA].
+  - intros x j Hx. eapply eff_lookup; [exact E25|exact (O2 x j Hx)|].
+    intros (i & _ & E)%HA. unfold pre, pcin in E. simplify_eq/=.
+  - intros s0 x j (i & Hi)%elem_of_list_lookup Hx. destruct (F4 i s0 (proj2 (Hl i s0) Hi)) as (Fa & _ & _).
+    eapply eff_lookup; [exact E45|by apply Fa|set_solver].
+  - intros s0 (i & Hi)%elem_of_list_lookup. destruct (F4 i s0 (proj2 (Hl i s0) Hi)) as (_ & Fb & _).
+    eapply eff_lookup; [exact E45|exact Fb|set_solver].
+  - intros i s0 j Hi Hj. destruct (F4 i s0 (proj2 (Hl i s0) Hi)) as (_ & _ & Fc).
+    destruct (Hpin i (lookup_lt_Some _ _ _ Hi)) as (j' & Hj' & _ & _ & Hj3). rewrite Hj in Hj'. injection Hj' as <-.
+    rewrite Hj3 in Fc. simpl in Fc. eapply eff_lookup; [exact E45|exact Fc|set_solver].
+  - intros x j Hx Hne. eapply eff_lookup; [exact E35|exact (P3 x j Hx)|].
+    intros (i & Hi & E)%HA. change (pcin i) with (pre "pc" (pin i)) in E. apply (inj (pre "pc")) in E. by apply (Hne i Hi).
+  - intros o Ho. assert (o ∈ seq 0 W) as Hos by (apply elem_of_seq; lia). split.
+    + rewrite (F5 o Hos). f_equal. unfold mk_node. f_equal. clear; set_solver.
+    + destruct (Fr5 o Hos) as [_ Hin5]. rewrite D5. by apply elem_of_union_l.
+  - intros s Hs. split; [|split; [|split; [|split]]].
+    + intros x Hx ->. apply (Hfr2 _ Hs). rewrite D1. apply elem_of_map. eauto.
+    + intros x Hx ->. apply (Hfr3 x Hx). by apply Hs2.
+    + intros s0 x (i & Hi)%elem_of_list_lookup Hx ->. destruct (Fr4 i s0 (proj2 (Hl i s0) Hi)) as [Fa _].
+      apply (Fa x Hx). by apply Hs3.
+    + intros s0 (i & Hi)%elem_of_list_lookup ->. destruct (Fr4 i s0 (proj2 (Hl i s0) Hi)) as [_ Fb]. apply Fb. by apply Hs3.
+    + intros o Ho ->. destruct (Fr5 o ltac:(apply elem_of_seq; lia)) as [Fa _]. apply Fa. by apply Hs4.
+  - intros s0 s0' x y (i & Hi)%elem_of_list_lookup (i' & Hi')%elem_of_list_lookup Hx Hy E.
+    eapply (inv_unique SUB n ord _ Hnd); [by rewrite snd_imap_pairs|exact H4|apply Hl, Hi|apply Hl, Hi'|done|done|done].
+Qed.
+
+
+Definition pins (m : nat) : list string := pin <$> seq 0 m.
+(* what the certificate needs of the popcount circuit (C13: popcount_combinational) *)
+Record pc_cert (P : circuit) (m : nat) : Prop := {
+  pq_closed : closed P;
+  pq_acyclic : acyclic P;
+  pq_free : free_nodes P = list_to_set (pins m);
+  pq_inputs : pc_inputs P m }.
+
+Section svcert.
+  Context (c : circuit) (n : string) (ord : list string) (P : circuit) (W : nat) (g : circuit).
+  Hypothesis Hc : comb c.
+  Hypothesis Hn : n ∈ dom c.
+  Hypothesis Hnd : NoDup ord.
+  Hypothesis Hin : inputs c = list_to_set ord.
+  Hypothesis HP : pc_cert P (length ord).
+  Hypothesis HL : sv_lookups c n ord P W g.
+
+  Lemma ord_inputs x : x ∈ ord ↔ x ∈ inputs c.
+  Proof. rewrite Hin. by rewrite elem_of_list_to_set. Qed.
+  Lemma ord_info x i : c !! x = Some i → (x ∈ ord ↔ n_ty i = Input).
+  Proof. intros Hx. rewrite ord_inputs, elem_of_inputs. split; [intros (i' & Hi' & Ht); congruence|eauto]. Qed.
+  Lemma c_gate_nonfree x i : c !! x = Some i → n_ty i ≠ Input → is_free i = false.
+  Proof. intros Hx Ht. destruct (is_free i) eqn:E; [|done]. by apply (cb_inputs_only c Hc x i Hx) in E. Qed.
+  Lemma pin_lookup i : i < length ord → ∃ j, P !! pin i = Some j ∧ n_ty j = Input ∧ n_fi j = ∅.
+  Proof. apply (pq_inputs _ _ HP). Qed.
+  Lemma P_nonpin_nonfree x j : P !! x = Some j → x ∉ pins (length ord) → is_free j = false.
+  Proof.
+    intros Hx Hnp. destruct (is_free j) eqn:E; [|done]. exfalso. apply Hnp.
+    assert (x ∈ free_nodes P) as Hf by (unfold free_nodes; apply elem_of_dom; exists j; by apply map_filter_lookup_Some).
+    rewrite (pq_free _ _ HP) in Hf. by apply elem_of_list_to_set in Hf.
+  Qed.
+  Lemma elem_pins x m : x ∈ pins m ↔ ∃ i, i < m ∧ x = pin i.
+  Proof. unfold pins. rewrite elem_of_list_fmap. split; [intros (i & -> & Hi%elem_of_seq); exists i; split; [lia|done]|intros (i & Hi & ->); exists i; split; [done|apply elem_of_seq; lia]]. Qed.
+
+  (* fan-in and type of the copied records *)
+  Lemma copy_rec_gate p i : is_free i = false →
+    n_ty (ren_info (pre p) (strip_info i)) = n_ty i ∧ n_fi (ren_info (pre p) (strip_info i)) = set_map (pre p) (n_fi i) ∧
+    is_free (ren_info (pre p) (strip_info i)) = false.
+  Proof.
+    intros Hf. destruct (strip_copy_nonfree p i Hf) as [H1 H2]. split; [done|]. split; [done|].
+    unfold is_free in *. rewrite H1, H2. destruct (n_ty i); try done; rewrite bool_decide_eq_false in Hf |- *;
+      intros He; apply Hf; by apply (set_map_empty_iff (pre p)).
+  Qed.
+  Lemma copy_rec_input p i : n_ty i = Input → n_fi i = ∅ →
+    n_ty (ren_info (pre p) (strip_info i)) = Buf ∧ n_fi (ren_info (pre p) (strip_info i)) = ∅.
+  Proof. intros Ht Hf. cbn [n_ty n_fi ren_info strip_info]. rewrite Ht, bool_decide_eq_true_2 by done. by rewrite Hf, set_map_empty. Qed.
+
+  Inductive vcls (k : string) (j : ninfo) : Prop :=
+  | vc_in : k ∈ ord → j = mk_node Input false ∅ → vcls k j
+  | vc_orig x i : c !! x = Some i → k = pre "orig" x → j = orec ord x i → vcls k j
+  | vc_inv s0 x i : s0 ∈ ord → c !! x = Some i → k = pre (pre "inv" s0) x → j = inv_rec s0 ord x i → vcls k j
+  | vc_dif s0 : s0 ∈ ord → k = pre "dif_out" s0 → j = mk_node Xor true {[pre "orig" n; pre (pre "inv" s0) n]} → vcls k j
+  | vc_pcin i s0 jj : ord !! i = Some s0 → P !! pin i = Some jj → k = pre "pc" (pin i) →
+        j = upd_fi (λ F, {[pre "dif_out" s0]} ∪ F) (ren_info (pre "pc") (strip_info jj)) → vcls k j
+  | vc_pc x jj : P !! x = Some jj → x ∉ pins (length ord) → k = pre "pc" x → j = ren_info (pre "pc") (strip_info jj) → vcls k j
+  | vc_sen o : o < W → k = "sen_out_" ++ pretty o → j = mk_node Buf true {[ "pc_out_" ++ pretty o ]} → vcls k j.
+
+  Lemma vclassify k j : g !! k = Some j → vcls k j.
+  Proof.
+    intros Hk. assert (k ∈ dom g) as Hd by (apply elem_of_dom; eauto).
+    destruct (vl_dom _ _ _ _ _ _ HL k Hd) as [Hs|[(x & [i Hi]%elem_of_dom & ->)|[(x & [jj Hj]%elem_of_dom & ->)|[(s0 & x & Hs0 & [i Hi]%elem_of_dom & ->)|[(s0 & Hs0 & ->)|(o & Ho & ->)]]]]].
+    - apply vc_in; [done|]. rewrite (vl_in _ _ _ _ _ _ HL k Hs) in Hk. congruence.
+    - eapply vc_orig; eauto. rewrite (vl_orig _ _ _ _ _ _ HL x i Hi) in Hk. congruence.
+    - destruct (decide (x ∈ pins (length ord))) as [(i & Hi & ->)%elem_pins|Hnp].
+      + destruct (lookup_lt_is_Some_2 ord i Hi) as [s0 Hs0]. eapply vc_pcin; eauto.
+        rewrite (vl_pcin _ _ _ _ _ _ HL i s0 jj Hs0 Hj) in Hk. congruence.
+      + eapply vc_pc; eauto. rewrite (vl_pc _ _ _ _ _ _ HL x jj Hj) in Hk; [congruence|].
+        intros i Hi ->. apply Hnp, elem_pins. eauto.
+    - eapply vc_inv; eauto. rewrite (vl_inv _ _ _ _ _ _ HL s0 x i Hs0 Hi) in Hk. congruence.
+    - eapply vc_dif; eauto. rewrite (vl_dif _ _ _ _ _ _ HL s0 Hs0) in Hk. congruence.
+    - eapply vc_sen; eauto. destruct (vl_sen _ _ _ _ _ _ HL o Ho) as [Hs _]. rewrite Hs in Hk. congruence.
+  Qed.
+
+  (* fan-in of the copies of a cone node *)
+  Lemma orec_fi x i f : c !! x = Some i → f ∈ n_fi (orec ord x i) →
+    (x ∈ ord ∧ f = x) ∨ (x ∉ ord ∧ ∃ y, y ∈ n_fi i ∧ f = pre "orig" y).
+  Proof.
+    intros Hx Hf. unfold orec in Hf. destruct (decide (x ∈ ord)) as [Ho|Ho].
+    - pose proof (proj1 (ord_info x i Hx) Ho) as Ht.
+      destruct (copy_rec_input "orig" i Ht (cb_input_fi c Hc x i Hx Ht)) as [_ H2]. cbn [upd_fi n_fi] in Hf. rewrite H2 in Hf.
+      left. split; [done|]. set_solver.
+    - assert (n_ty i ≠ Input) as Ht by (intros Ht; by apply Ho, (ord_info x i Hx)).
+      destruct (copy_rec_gate "orig" i (c_gate_nonfree x i Hx Ht)) as (_ & H2 & _). cbn [upd_fi n_fi] in Hf. rewrite H2 in Hf.
+      right. split; [done|]. apply elem_of_union in Hf as [Hf|Hf]; [set_solver|]. apply elem_of_map in Hf as (y & -> & Hy). eauto.
+  Qed.
+  Lemma invrec_fi s0 x i f : c !! x = Some i → f ∈ n_fi (inv_rec s0 ord x i) →
+    (x ∈ ord ∧ (f = x ∨ f = s0) ∧ f ∈ ord ∨ False) ∨ (x ∉ ord ∧ ∃ y, y ∈ n_fi i ∧ f = pre (pre "inv" s0) y).
+  Proof.
+    intros Hx Hf. unfold inv_rec in Hf. destruct (decide (x ∈ ord)) as [Ho|Ho].
+    - pose proof (proj1 (ord_info x i Hx) Ho) as Ht.
+      destruct (copy_rec_input (pre "inv" s0) i Ht (cb_input_fi c Hc x i Hx Ht)) as [_ H2].
+      left. left. split; [done|]. unfold inner_fn in Hf. destruct (decide (s0 = x)) as [->|Hne]; cbn [upd_fi retype n_fi] in Hf; rewrite H2 in Hf;
+        assert (f = x) as -> by set_solver; auto.
+    - assert (n_ty i ≠ Input) as Ht by (intros Ht; by apply Ho, (ord_info x i Hx)).
+      destruct (copy_rec_gate (pre "inv" s0) i (c_gate_nonfree x i Hx Ht)) as (_ & H2 & _). rewrite H2 in Hf.
+      right. split; [done|]. apply elem_of_map in Hf as (y & -> & Hy). eauto.
+  Qed.
+
+  Lemma dom_orig x : x ∈ dom c → pre "orig" x ∈ dom g.
+  Proof. intros [i Hi]%elem_of_dom. apply elem_of_dom. rewrite (vl_orig _ _ _ _ _ _ HL x i Hi). eauto. Qed.
+  Lemma dom_inv s0 x : s0 ∈ ord → x ∈ dom c → pre (pre "inv" s0) x ∈ dom g.
+  Proof. intros Hs [i Hi]%elem_of_dom. apply elem_of_dom. rewrite (vl_inv _ _ _ _ _ _ HL s0 x i Hs Hi). eauto. Qed.
+  Lemma dom_ord s : s ∈ ord → s ∈ dom g.
+  Proof. intros Hs. apply elem_of_dom. rewrite (vl_in _ _ _ _ _ _ HL s Hs). eauto. Qed.
+  Lemma dom_pc x : x ∈ dom P → pre "pc" x ∈ dom g.
+  Proof.
+    intros [jj Hj]%elem_of_dom. apply elem_of_dom. destruct (decide (x ∈ pins (length ord))) as [(i & Hi & ->)%elem_pins|Hnp].
+    - destruct (lookup_lt_is_Some_2 ord i Hi) as [s0 Hs0]. rewrite (vl_pcin _ _ _ _ _ _ HL i s0 jj Hs0 Hj). eauto.
+    - rewrite (vl_pc _ _ _ _ _ _ HL x jj Hj); [eauto|]. intros i Hi ->. apply Hnp, elem_pins. eauto.
+  Qed.
+  Lemma dom_dif s0 : s0 ∈ ord → pre "dif_out" s0 ∈ dom g.
+  Proof. intros Hs. apply elem_of_dom. rewrite (vl_dif _ _ _ _ _ _ HL s0 Hs). eauto. Qed.
+
+  Theorem sv_closed : closed g.
+  Proof.
+    intros k j f Hk Hf.
+    destruct (vclassify k j Hk) as [Hs ->|x i Hx -> ->|s0 x i Hs0 Hx -> ->|s0 Hs0 -> ->|i s0 jj Hi Hj -> ->|x jj Hx Hnp -> ->|o Ho -> ->].
+    - simpl in Hf. set_solver.
+    - destruct (orec_fi x i f Hx Hf) as [[Ho ->]|[_ (y & Hy & ->)]]; [by apply dom_ord|].
+      apply dom_orig. eapply (cb_closed c Hc); eauto.
+    - destruct (invrec_fi s0 x i f Hx Hf) as [[(_ & _ & Hfo)|[]]|[_ (y & Hy & ->)]]; [by apply dom_ord|].
+      apply dom_inv; [done|]. eapply (cb_closed c Hc); eauto.
+    - simpl in Hf. apply elem_of_union in Hf as [->%elem_of_singleton| ->%elem_of_singleton]; [by apply dom_orig|by apply dom_inv].
+    - destruct (pin_lookup i (lookup_lt_Some _ _ _ Hi)) as (j' & Hj' & Ht & Hfi). rewrite Hj in Hj'. injection Hj' as <-.
+      destruct (copy_rec_input "pc" jj Ht Hfi) as [_ H2]. cbn [upd_fi n_fi] in Hf. rewrite H2 in Hf.
+      assert (f = pre "dif_out" s0) as -> by set_solver. apply dom_dif. by eapply elem_of_list_lookup_2.
+    - destruct (copy_rec_gate "pc" jj (P_nonpin_nonfree x jj Hx Hnp)) as (_ & H2 & _). rewrite H2 in Hf.
+      apply elem_of_map in Hf as (y & -> & Hy). apply dom_pc. eapply (pq_closed _ _ HP); eauto.
+    - simpl in Hf. apply elem_of_singleton in Hf as ->. by destruct (vl_sen _ _ _ _ _ _ HL o Ho).
+  Qed.
+
+  Theorem sv_free_nodes : free_nodes g = list_to_set ord.
+  Proof.
+    apply set_eq. intros k. unfold free_nodes. rewrite elem_of_dom, elem_of_list_to_set. split.
+    - intros [j [Hk Hfree]%map_filter_lookup_Some]. simpl in Hfree.
+      destruct (vclassify k j Hk) as [Hs ->|x i Hx -> ->|s0 x i Hs0 Hx -> ->|s0 Hs0 -> ->|i s0 jj Hi Hj -> ->|x jj Hx Hnp -> ->|o Ho -> ->]; try done; exfalso.
+      + unfold orec in Hfree. destruct (decide (x ∈ ord)) as [Ho|Ho].
+        * pose proof (proj1 (ord_info x i Hx) Ho) as Ht.
+          destruct (copy_rec_input "orig" i Ht (cb_input_fi c Hc x i Hx Ht)) as [H1 H2].
+          unfold is_free in Hfree. cbn [upd_fi n_ty n_fi] in Hfree. rewrite H1, H2 in Hfree. apply bool_decide_eq_true in Hfree. set_solver.
+        * assert (n_ty i ≠ Input) as Ht by (intros Ht; by apply Ho, (ord_info x i Hx)).
+          destruct (copy_rec_gate "orig" i (c_gate_nonfree x i Hx Ht)) as (_ & _ & H3).
+          rewrite upd_fi_empty in Hfree. congruence.
+      + unfold inv_rec in Hfree. destruct (decide (x ∈ ord)) as [Ho|Ho].
+        * pose proof (proj1 (ord_info x i Hx) Ho) as Ht.
+          destruct (copy_rec_input (pre "inv" s0) i Ht (cb_input_fi c Hc x i Hx Ht)) as [H1 H2].
+          unfold inner_fn, is_free in Hfree. destruct (decide (s0 = x)); cbn [upd_fi retype n_ty n_fi] in Hfree; rewrite ?H1, H2 in Hfree;
+            apply bool_decide_eq_true in Hfree; set_solver.
+        * assert (n_ty i ≠ Input) as Ht by (intros Ht; by apply Ho, (ord_info x i Hx)).
+          destruct (copy_rec_gate (pre "inv" s0) i (c_gate_nonfree x i Hx Ht)) as (_ & _ & H3). congruence.
+      + destruct (pin_lookup i (lookup_lt_Some _ _ _ Hi)) as (j' & Hj' & Ht & Hfi). rewrite Hj in Hj'. injection Hj' as <-.
+        destruct (copy_rec_input "pc" jj Ht Hfi) as [H1 H2]. unfold is_free in Hfree. cbn [upd_fi n_ty n_fi] in Hfree.
+        rewrite H1, H2 in Hfree. apply bool_decide_eq_true in Hfree. set_solver.
+      + destruct (copy_rec_gate "pc" jj (P_nonpin_nonfree x jj Hx Hnp)) as (_ & _ & H3). congruence.
+    - intros Hs. exists (mk_node Input false ∅). apply map_filter_lookup_Some. split; [by apply (vl_in _ _ _ _ _ _ HL)|done].
+  Qed.
+End svcert.
+
+
+Lemma union_list_lookup_None (ms : list (gmap string nat)) k : (∀ m, m ∈ ms → m !! k = None) → (⋃ ms) !! k = None.
+Proof.
+  induction ms as [|m ms IH]; intros H; [done|]. simpl. apply lookup_union_None. split; [apply H; by left|].
+  apply IH. intros m' Hm'. apply H. by right.
+Qed.
+Lemma union_list_lookup_Some (ms : list (gmap string nat)) k v :
+  (∃ m, m ∈ ms ∧ m !! k = Some v) → (∀ m v', m ∈ ms → m !! k = Some v' → v' = v) → (⋃ ms) !! k = Some v.
+Proof.
+  induction ms as [|m ms IH]; intros (m0 & Hm0 & Hk) Hu; [by apply elem_of_nil in Hm0|]. simpl.
+  destruct (m !! k) as [v'|] eqn:E.
+  - rewrite (Hu m v' ltac:(by left) E) in E. by apply lookup_union_Some_l.
+  - rewrite lookup_union_r by done. apply IH.
+    + apply elem_of_cons in Hm0 as [->|Hm0]; [congruence|eauto].
+    + intros m' v'' Hm' Hk'. eapply Hu; [by right|done].
+Qed.
+
+Section svacyclic.
+  Context (c : circuit) (n : string) (ord : list string) (P : circuit) (W : nat) (g : circuit) (r rP : string → nat).
+  Hypothesis Hc : comb c.
+  Hypothesis Hn : n ∈ dom c.
+  Hypothesis Hnd : NoDup ord.
+  Hypothesis Hin : inputs c = list_to_set ord.
+  Hypothesis HP : pc_cert P (length ord).
+  Hypothesis HL : sv_lookups c n ord P W g.
+  Hypothesis Hr : ∀ x i f, c !! x = Some i → f ∈ n_fi i → r f < r x.
+  Hypothesis HrP : ∀ x i f, P !! x = Some i → f ∈ n_fi i → rP f < rP x.
+
+  Let cr := crank c r.
+  Let B := size c.
+  Let crP := crank P rP.
+  Let BP := size P.
+  Definition cmap (p : string) : gmap string nat := kmap (pre p) (map_imap (λ x _, Some (S (cr x))) c).
+  Definition vrk_orig : gmap string nat := cmap "orig".
+  Definition vrk_inv : gmap string nat := ⋃ ((λ s0, cmap (pre "inv" s0)) <$> ord).
+  Definition vrk_pc : gmap string nat := kmap (pre "pc") (map_imap (λ x _, Some (B + 2 + crP x)) P).
+  Definition difset : gset string := set_map (pre "dif_out") (list_to_set ord : gset string).
+  Definition senset : gset string := list_to_set ((λ o, "sen_out_" ++ pretty o) <$> seq 0 W).
+  Definition vrank (k : string) : nat :=
+    if decide (k ∈ ord) then 0 else
+    match vrk_orig !! k with Some v => v | None =>
+    match vrk_inv !! k with Some v => v | None =>
+    match vrk_pc !! k with Some v => v | None =>
+    if decide (k ∈ difset) then B + 1 else if decide (k ∈ senset) then B + 2 + BP else 0 end end end.
+
+  Lemma cmap_hit p x : x ∈ dom c → cmap p !! pre p x = Some (S (cr x)).
+  Proof. intros [i Hi]%elem_of_dom. unfold cmap. rewrite lookup_kmap by apply _. by rewrite map_lookup_imap, Hi. Qed.
+  Lemma cmap_Some p k v : cmap p !! k = Some v → ∃ x, x ∈ dom c ∧ k = pre p x ∧ v = S (cr x).
+  Proof.
+    unfold cmap. intros (x & -> & Hx)%lookup_kmap_Some; [|apply _]. rewrite map_lookup_imap in Hx.
+    destruct (c !! x) as [i|] eqn:E; [|done]. simpl in Hx. injection Hx as <-. exists x. split; [apply elem_of_dom; eauto|done].
+  Qed.
+  Lemma cmap_miss p k : (∀ x, k ≠ pre p x) → cmap p !! k = None.
+  Proof. intros H. destruct (cmap p !! k) as [v|] eqn:E; [|done]. apply cmap_Some in E as (x & _ & -> & _). by destruct (H x). Qed.
+  Lemma inv_miss k : (∀ s0 x, k ≠ pre (pre "inv" s0) x) → vrk_inv !! k = None.
+  Proof.
+    intros H. apply union_list_lookup_None. intros m (s0 & -> & _)%elem_of_list_fmap. apply cmap_miss. intros x. apply H.
+  Qed.
+  Lemma pc_miss k : (∀ x, k ≠ pre "pc" x) → vrk_pc !! k = None.
+  Proof.
+    intros H. unfold vrk_pc. apply lookup_kmap_None; [apply _|]. intros x ->. by destruct (H x).
+  Qed.
+  Lemma not_ord_orig x : x ∈ dom c → pre "orig" x ∉ ord.
+  Proof. intros Hx Hs. destruct (vl_fresh _ _ _ _ _ _ HL _ Hs) as (F & _). by apply (F x Hx). Qed.
+  Lemma not_ord_inv s0 x : s0 ∈ ord → x ∈ dom c → pre (pre "inv" s0) x ∉ ord.
+  Proof. intros Hs0 Hx Hs. destruct (vl_fresh _ _ _ _ _ _ HL _ Hs) as (_ & _ & F & _). by apply (F s0 x Hs0 Hx). Qed.
+  Lemma not_ord_pc x : x ∈ dom P → pre "pc" x ∉ ord.
+  Proof. intros Hx Hs. destruct (vl_fresh _ _ _ _ _ _ HL _ Hs) as (_ & F & _). by apply (F x Hx). Qed.
+  Lemma not_ord_dif s0 : s0 ∈ ord → pre "dif_out" s0 ∉ ord.
+  Proof. intros Hs0 Hs. destruct (vl_fresh _ _ _ _ _ _ HL _ Hs) as (_ & _ & _ & F & _). by apply (F s0 Hs0). Qed.
+  Lemma not_ord_sen o : o < W → "sen_out_" ++ pretty o ∉ ord.
+  Proof. intros Ho Hs. destruct (vl_fresh _ _ _ _ _ _ HL _ Hs) as (_ & _ & _ & _ & F). by apply (F o Ho). Qed.
+
+  Lemma vrank_ord s : s ∈ ord → vrank s = 0.
+  Proof. intros Hs. unfold vrank. by rewrite decide_True. Qed.
+  Lemma vrank_orig x : x ∈ dom c → vrank (pre "orig" x) = S (cr x).
+  Proof. intros Hx. unfold vrank. rewrite decide_False by (by apply not_ord_orig). unfold vrk_orig. by rewrite (cmap_hit "orig" x Hx). Qed.
+  Lemma vrank_inv s0 x : s0 ∈ ord → x ∈ dom c → vrank (pre (pre "inv" s0) x) = S (cr x).
+  Proof.
+    intros Hs0 Hx. unfold vrank. rewrite decide_False by (by apply not_ord_inv).
+    unfold vrk_orig. rewrite cmap_miss by (intros y; unfold pre; intros [=]).
+    assert (vrk_inv !! pre (pre "inv" s0) x = Some (S (cr x))) as ->; [|done].
+    apply union_list_lookup_Some.
+    - exists (cmap (pre "inv" s0)). split; [apply elem_of_list_fmap; eauto|by apply cmap_hit].
+    - intros m v' (s0' & -> & Hs0')%elem_of_list_fmap (y & Hy & E & ->)%cmap_Some.
+      destruct (vl_uniq _ _ _ _ _ _ HL s0 s0' x y Hs0 Hs0' Hx Hy E) as [_ ->]. done.
+  Qed.
+  Lemma vrank_pc x : x ∈ dom P → vrank (pre "pc" x) = B + 2 + crP x.
+  Proof.
+    intros Hx. unfold vrank. rewrite decide_False by (by apply not_ord_pc).
+    unfold vrk_orig. rewrite cmap_miss by (intros y; unfold pre; intros [=]).
+    rewrite inv_miss by (intros s0 y; unfold pre; intros [=]).
+    apply elem_of_dom in Hx as [j Hj]. unfold vrk_pc. rewrite lookup_kmap by apply _. by rewrite map_lookup_imap, Hj.
+  Qed.
+  Lemma vrank_dif s0 : s0 ∈ ord → vrank (pre "dif_out" s0) = B + 1.
+  Proof.
+    intros Hs0. unfold vrank. rewrite decide_False by (by apply not_ord_dif).
+    unfold vrk_orig. rewrite cmap_miss by (intros y; unfold pre; intros [=]).
+    rewrite inv_miss by (intros s y; unfold pre; intros [=]). rewrite pc_miss by (intros y; unfold pre; intros [=]).
+    rewrite decide_True; [done|]. unfold difset. apply elem_of_map. exists s0. split; [done|by apply elem_of_list_to_set].
+  Qed.
+  Lemma vrank_sen o : o < W → vrank ("sen_out_" ++ pretty o) = B + 2 + BP.
+  Proof.
+    intros Ho. unfold vrank. rewrite decide_False by (by apply not_ord_sen).
+    unfold vrk_orig. rewrite cmap_miss by (intros y; unfold pre; intros [=]).
+    rewrite inv_miss by (intros s y; unfold pre; intros [=]). rewrite pc_miss by (intros y; unfold pre; intros [=]).
+    rewrite decide_False by (unfold difset; intros (s & E & _)%elem_of_map; unfold pre in E; simplify_eq/=).
+    rewrite decide_True; [done|]. unfold senset. apply elem_of_list_to_set, elem_of_list_fmap. exists o. split; [done|apply elem_of_seq; lia].
+  Qed.
+  Lemma vcr_bound x : x ∈ dom c → cr x < B.
+  Proof. apply crank_bound. Qed.
+  Lemma vcrP_bound x : x ∈ dom P → crP x < BP.
+  Proof. apply crank_bound. Qed.
+
+  (* every node other than the sen_out buffers ranks below them *)
+  Lemma vrank_below k j : g !! k = Some j → (∀ o : nat, k ≠ "sen_out_" ++ pretty o) → vrank k < B + 2 + BP.
+  Proof.
+    intros Hk Hns.
+    destruct (vclassify c n ord P W g HL k j Hk) as [Hs ->|x i Hx -> ->|s0 x i Hs0 Hx -> ->|s0 Hs0 -> ->|i s0 jj Hi Hj -> ->|x jj Hx Hnp -> ->|o Ho -> ->].
+    - rewrite (vrank_ord k Hs). lia.
+    - assert (x ∈ dom c) as Hd by (apply elem_of_dom; eauto). rewrite (vrank_orig x Hd). pose proof (vcr_bound x Hd). lia.
+    - assert (x ∈ dom c) as Hd by (apply elem_of_dom; eauto). rewrite (vrank_inv s0 x Hs0 Hd). pose proof (vcr_bound x Hd). lia.
+    - rewrite (vrank_dif s0 Hs0). lia.
+    - assert (pin i ∈ dom P) as Hd by (apply elem_of_dom; eauto). rewrite (vrank_pc _ Hd). pose proof (vcrP_bound _ Hd). lia.
+    - assert (x ∈ dom P) as Hd by (apply elem_of_dom; eauto). rewrite (vrank_pc _ Hd). pose proof (vcrP_bound _ Hd). lia.
+    - by destruct (Hns o).
+  Qed.
+
+  Theorem sv_acyclic : acyclic g.
+  Proof.
+    exists vrank. intros k j f Hk Hf.
+    pose proof (cb_closed c Hc) as Hcl.
+    destruct (vclassify c n ord P W g HL k j Hk) as [Hs ->|x i Hx -> ->|s0 x i Hs0 Hx -> ->|s0 Hs0 -> ->|i s0 jj Hi Hj -> ->|x jj Hx Hnp -> ->|o Ho -> ->].
+    - simpl in Hf. set_solver.
+    - assert (x ∈ dom c) as Hd by (apply elem_of_dom; eauto). rewrite (vrank_orig x Hd).
+      destruct (orec_fi c n ord P W g Hc Hn Hnd Hin HP HL x i f Hx Hf) as [[Ho ->]|[_ (y & Hy & ->)]].
+      + rewrite (vrank_ord x Ho). lia.
+      + rewrite vrank_orig by (eapply Hcl; eauto). pose proof (crank_mono c r Hcl Hr x i y Hx Hy). fold cr in H. lia.
+    - assert (x ∈ dom c) as Hd by (apply elem_of_dom; eauto). rewrite (vrank_inv s0 x Hs0 Hd).
+      destruct (invrec_fi c n ord P W g Hc Hn Hnd Hin HP HL s0 x i f Hx Hf) as [[(_ & _ & Hfo)|[]]|[_ (y & Hy & ->)]].
+      + rewrite (vrank_ord f Hfo). lia.
+      + rewrite vrank_inv by (try done; eapply Hcl; eauto). pose proof (crank_mono c r Hcl Hr x i y Hx Hy). fold cr in H. lia.
+    - rewrite (vrank_dif s0 Hs0). pose proof (vcr_bound n Hn). simpl in Hf.
+      apply elem_of_union in Hf as [->%elem_of_singleton| ->%elem_of_singleton]; [rewrite (vrank_orig n Hn)|rewrite (vrank_inv s0 n Hs0 Hn)]; lia.
+    - assert (pin i ∈ dom P) as Hd by (apply elem_of_dom; eauto). rewrite (vrank_pc _ Hd).
+      destruct (pq_inputs _ _ HP i (lookup_lt_Some _ _ _ Hi)) as (j' & Hj' & Ht & Hfi). change (P !! pin i = Some j') in Hj'. rewrite Hj in Hj'. injection Hj' as <-.
+      destruct (copy_rec_input "pc" jj Ht Hfi) as [_ H2]. cbn [upd_fi n_fi] in Hf. rewrite H2 in Hf.
+      assert (f = pre "dif_out" s0) as -> by set_solver. rewrite vrank_dif by (by eapply elem_of_list_lookup_2). lia.
+    - assert (x ∈ dom P) as Hd by (apply elem_of_dom; eauto). rewrite (vrank_pc _ Hd).
+      destruct (copy_rec_gate "pc" jj (P_nonpin_nonfree ord P HP x jj Hx Hnp)) as (_ & H2 & _). rewrite H2 in Hf.
+      apply elem_of_map in Hf as (y & -> & Hy). rewrite vrank_pc by (eapply (pq_closed _ _ HP); eauto).
+      pose proof (crank_mono P rP (pq_closed _ _ HP) HrP x jj y Hx Hy). fold crP in H. lia.
+    - rewrite (vrank_sen o Ho). simpl in Hf. apply elem_of_singleton in Hf as ->.
+      destruct (vl_sen _ _ _ _ _ _ HL o Ho) as [_ [j' Hj']%elem_of_dom].
+      apply (vrank_below _ j' Hj'). intros o' E. simplify_eq/=.
+  Qed.
+End svacyclic.
+
+
+(* the certificate of the model's sensitivity circuit, for all inputs, given that the popcount circuit is combinational *)
+Theorem sv_model_cert C n ord PC T W :
+  comb (c_g C) → pc_cert (c_g PC) (length ord) →
+  sensitivity_transform C n ord PC = Ok T → clog2 (length ord + 1) = Ok W →
+  closed (c_g T) ∧ acyclic (c_g T) ∧ free_nodes (c_g T) = list_to_set ord.
+Proof.
+  intros Hc HP HT HW.
+  destruct (sv_transform_inv _ _ _ _ _ HT) as (Hbb & Hn & Hperm & S1 & g2 & S3 & S4 & W' & g5 & H1 & H2 & H3 & H4 & HW' & H5 & ->).
+  rewrite HW in HW'. injection HW' as <-.
+  set (c := c_g C) in *. set (K := tfi c [n] ∪ {[n]}) in *.
+  pose proof (cb_closed _ Hc) as Hcl.
+  assert (HK : ∀ y i f, c !! y = Some i → y ∈ K → f ∈ n_fi i → f ∈ K).
+  { assert (K = list_to_set [n] ∪ tfi c [n]) as -> by (unfold K; apply set_eq; set_solver). by apply cone_fanin_closed. }
+  assert (Hsub : sub_of (induced c K) c) by (by apply induced_sub_of).
+  assert (HcS : comb (induced c K)) by (by eapply sub_comb).
+  assert (Hnd : NoDup ord) by (rewrite Hperm; apply NoDup_elements).
+  assert (Hin : inputs (induced c K) = list_to_set ord).
+  { rewrite induced_inputs. apply set_eq. intros y. rewrite elem_of_list_to_set, Hperm, elem_of_elements.
+    unfold cone_startpoints. rewrite (comb_startpoints c Hc). unfold K. clear; set_solver. }
+  assert (HnS : n ∈ dom (induced c K)) by (apply induced_dom; split; [unfold K; clear; set_solver|done]).
+  pose proof (sv_model_lookups (sv_sub c n) n ord PC S1 g2 S3 S4 W g5 HcS Hnd Hin (pq_inputs _ _ HP) H1 H2 H3 H4 H5) as HL.
+  change (c_g (sv_sub c n)) with (induced c K) in HL. change (c_g (with_g S4 g5)) with g5.
+  destruct (cb_acyclic _ HcS) as [r Hr]. destruct (pq_acyclic _ _ HP) as [rP HrP].
+  split; [by eapply sv_closed|]. split; [by eapply sv_acyclic|by eapply sv_free_nodes].
+Qed.
+
+(* props.sensitivity on the model's sensitivity circuit, all inputs: the search returns the sensitivity *)
+Theorem sensitivity_model_full (solve : list (string * bool) → bool) C n ord PC T W w :
+  comb (c_g C) → pc_cert (c_g PC) (length ord) → popcount_correct (c_g PC) (length ord) W →
+  sensitivity_transform C n ord PC = Ok T →
+  clog2 (length ord) = Ok w → clog2 (length ord + 1) = Ok W →
+  (∀ k, k ≤ length ord → let asm := asm_of (int_to_bin_le k w) in
+     solve asm = true ↔ ∃ v, consistent (c_g T) v ∧ Forall (λ p : string * bool, v p.1 = p.2) asm) →
+  ∃ k, search solve w (length ord) = Ok k ∧ is_sensitivity (c_g C) n ord k.
+Proof.
+  intros Hc HP Hpop HT Hw HW Hsolve.
+  destruct (sv_model_cert C n ord PC T W Hc HP HT HW) as (HclT & HacT & HfT).
+  by eapply (sensitivity_model_spec solve C n ord PC T W w Hc (pq_inputs _ _ HP) Hpop HT HclT HacT HfT Hw HW).
+Qed.
